@@ -118,12 +118,12 @@ def _basic_config(filename=None,
     """
     Method to load preferred units from file or Mapping
     """
-    if filename and (preferred_units or max_calc_step_size):
+    if filename and (preferred_units or max_calc_step_size is not None):
         raise ValueError("Can't use preferred_units and config file at same time")
-    if not filename and (preferred_units or max_calc_step_size):
+    if not filename and (preferred_units or max_calc_step_size is not None):
         if preferred_units:
             PreferredUnits.set(**preferred_units)
-        if max_calc_step_size:
+        if max_calc_step_size is not None:
             set_global_max_calc_step_size(max_calc_step_size)
     else:
         # trying to load definitions from pybc.toml
